@@ -15,6 +15,7 @@ RULES = {
     "R-14.1": "the ordered ctx.update() inputs of _digest equal the RFC 8945 4.3 composition under every valuation of (first, request MAC present); multi-message continuation starts with the length-prefixed prior MAC",
     "R-14.2": "validate digests the message with ARCOUNT-1 cut at the TSIG, performs error/time/key/algorithm checks before the MAC check, and every normal return is dominated by ctx.verify(rdata.mac); HMAC verify is a constant-time comparison of the (possibly truncated) digest",
     "R-14.3": "HMACTSig._hashes and mac_sizes agree (keys, hash function per algorithm name, digest or truncated size)",
+    "R-14.7": "every field of the TSIG RR that the digest replaces by a constant is pinned by the reader: _digest packs TTL 0 (RFC 8945 4.2: the TTL MUST be 0), so the wire reader refuses a TSIG RR whose TTL is not 0 before it validates - otherwise 32 bits of the signed message can be altered without the MAC noticing",
     "R-14.6": "every transport verifies the response against the MAC of the query it sent: the request_mac handed to the response parser is the query's `.mac` (or the function's own request_mac parameter), never `.request_mac` of the query (b'' for a query); a TSIG-keyed transfer ends with a signed message",
     "R-14.5": "every signer entry point hands the request MAC (and, for multi-message signing, the running context) it was given to dns.tsig.sign; an unsigned intermediate message of a multi-message sequence is digested whole (RFC 8945 5.3.1)",
     "R-14.4": "a TSIG that is not the last record / class ANY / in ADDITIONAL raises BadTSIG (a FormError); Message.to_wire signs the wire produced after write_header()",
@@ -323,6 +324,20 @@ def run(model, rep, tier):
         chained = pat.has(fx.node, f"{kw.get('tsig_ctx', '__none')} = __r.tsig_ctx") if kw.get("tsig_ctx") else False
         rep.check(len(fw) == 1 and bool(chained) and "multi" in kw, "R-14.6", fx.qualname, where(fx, fw[0] if fw else fx.node), "each message is verified with the context left by the previous one",
                   f"the multi-message context is not chained through the receive loop (tsig_ctx={kw.get('tsig_ctx')}, multi={kw.get('multi')})", stmt="ctx-chained")
+    # ---------------------------------------------------------------- R-14.7
+    gs7 = model.func("dns.message._WireReader._get_section")
+    c7 = CFG(gs7.node, implicit_exc=False)
+    vals = [n for (n, c) in calls_with_nodes(c7) if src(c.func) == "dns.tsig.validate"]
+    ttl_guards = [t for t in c7.nodes if t.kind == "test" and isinstance(t.ast, ast.If) and t.ast.body and isinstance(t.ast.body[-1], ast.Raise)
+                  and any(a[0] == "ttl" and a[1] == "!=" and a[2] == "0" for a in atoms(normalise_compare(t.ast.test)))]
+    const_ttl = pat.has_expr(dg.node, "struct.pack('!I', 0)")
+    if not vals:
+        rep.blind("R-14.7", gs7.qualname, where(gs7, gs7.node), "the dns.tsig.validate call of the wire reader was not found", stmt="tsig-ttl")
+    else:
+        okk = (not const_ttl) or (bool(ttl_guards) and all(c7.edge_dominated(v.id, {(g.id, "f") for g in ttl_guards}) for v in vals))
+        rep.check(okk, "R-14.7", gs7.qualname, where(gs7, vals[0].ast), "a TSIG RR with a non-zero TTL is refused before validation (the digest assumes 0)",
+                  "_digest packs a constant 0 for the TSIG TTL, and nothing refuses a TSIG RR whose wire TTL is not 0 before dns.tsig.validate: flipping any of the 32 TTL bits of a signed "
+                  "message still validates", stmt="tsig-ttl")
     rep.meta["explanation"] = (
         "Ordered-effect projection of dns.tsig._digest: for each valuation of (first, request MAC present) the feasible CFG paths are walked and the arguments of ctx.update are "
         "flattened into typed tokens (struct formats expanded, concatenations split, locals substituted) and compared with the RFC 8945 4.3 table held in the checker - an independent "
@@ -330,6 +345,8 @@ def run(model, rep, tier):
 
 
 WITNESSES = [
+    {"id": "c14-tsig-ttl-unchecked", "rule": "R-14.7", "file": "dns/message.py", "expect": "fires",
+     "old": "                    if ttl != 0:\n                        # RFC 8945 section 4.2: the TTL MUST be 0 (it is digested as 0)\n                        raise BadTSIG\n", "new": ""},
     {"id": "c14-doh-verifies-against-request-mac", "rule": "R-14.6", "file": "dns/query.py", "expect": "fires",
      "old": "        keyring=q.keyring,\n        request_mac=q.mac,\n        one_rr_per_rrset=one_rr_per_rrset,\n        ignore_trailing=ignore_trailing,\n    )\n    r.time = response.elapsed.total_seconds()",
      "new": "        keyring=q.keyring,\n        request_mac=q.request_mac,\n        one_rr_per_rrset=one_rr_per_rrset,\n        ignore_trailing=ignore_trailing,\n    )\n    r.time = response.elapsed.total_seconds()"},
